@@ -1,5 +1,7 @@
 import Driver.Text
 import Driver.Families
+import IppModel.Spec.ToWire
+import Driver.Ops2
 namespace Ipp.Ops
 open Ipp Ipp.Gen Ipp.Text
 
@@ -79,6 +81,18 @@ def dispatch (op : String) (args : List SExp) : String :=
             else "match"
         s!"{modelPart} ## {specPart}"
      | _, _ => "(bad-arg)")
+  | "thm03", [m, .atom _] =>
+    -- falsification test of the C03 theorem statements on concrete messages
+    (match readMsg m with
+     | some (h, L) =>
+        let gs : List Group := L.map Group.canon
+        let w := Spec.toWireMsg h L
+        let a := if Spec.wfMsg gs then "wf" else "NOT-wfMsg"
+        let b := if encodeMsg h L == Spec.ser w then "ser-eq" else "SER-DIFF"
+        let c := if Spec.wfWire w then "wire-wf" else "WIRE-NOT-WF"
+        let d := if showMsg (Spec.interp w).1 (Spec.interp w).2 == showMsg h gs then "interp-eq" else "INTERP-DIFF"
+        s!"{a} {b} {c} {d}"
+     | none => "(bad-arg)")
   | "wire", [w, .atom p] =>
     (match readWMsg w, hexToBytes p with
      | some w, some pay =>
@@ -109,6 +123,6 @@ def dispatch (op : String) (args : List SExp) : String :=
         else if mode == "async" then showParsed showRest (parseAsync src)
         else "(bad-arg)"
      | none => "(bad-arg)")
-  | _, _ => "(bad-op)"
+  | _, _ => (Ops2.dispatch2 op args).getD "(bad-op)"
 
 end Ipp.Ops
